@@ -210,7 +210,7 @@ theorem optArgsOf_noCall (ρ : String → Option Word) (es : List X.Expr) (hp : 
 
 theorem Rep.setIo {K : PCtx} {σ : X.St} {mem : Mem} (h : Rep K σ mem) (io : Isa.IOSt) : Rep K { σ with io := io } mem :=
   ⟨h.sp, h.vals, fun n w hn hr => h.vars n w hn hr, h.consts, h.locs, h.above, h.gvis, h.depth,
-   fun n r hr => h.aptr n r hr, fun id cells hc => h.acells id cells hc⟩
+   fun n r hr => h.aptr n r hr, fun id cells hc => h.acells id cells hc, h.strs⟩
 
 theorem sysId_small (id : Nat) (h : id < 3) : sysIdOfNat id = (id : Int) := by
   unfold sysIdOfNat
